@@ -55,11 +55,13 @@ Step ==
   /\ LET ln == Log[l] IN
      CASE ln.k = "build" ->
             LET a == <<ln.act[1], ln.act[2]>>
-                bad == (IF "P18_ActiveIff" \in Checked /\ ~P18_ActiveIff(ln, a, None) THEN {"P18_ActiveIff"} ELSE {})
+                \* a build line with an epoch: the notifier confirmed it to every subscriber at registration (the first notification)
+                lst == IF Len(ln.e) = 2 THEN << <<ln.e[1], ln.e[2]>> >> ELSE None
+                bad == (IF "P18_ActiveIff" \in Checked /\ ~P18_ActiveIff(ln, a, lst) THEN {"P18_ActiveIff"} ELSE {})
                        \cup (IF "P18_Registry" \in Checked /\ ~P18_Registry(ln) THEN {"P18_Registry"} ELSE {})
                 trig == {"build"} \cup (IF a # <<0, 0>> THEN {"nonzero_act"} ELSE {}) \cup (IF Big(a) THEN {"boundary"} ELSE {})
             IN /\ (bad # {} => PrintT(<<"VIOL", l, bad>>))
-               /\ act' = a /\ last' = None /\ hist' = <<>> /\ flag' = ObsFlag(ln)
+               /\ act' = a /\ last' = lst /\ hist' = (IF lst = None THEN <<>> ELSE <<lst[1]>>) /\ flag' = ObsFlag(ln)
                /\ nviol' = nviol + Cardinality(bad)
                /\ cnt' = [c \in Counters |-> cnt[c] + (IF c \in trig THEN 1 ELSE 0)]
        [] ln.k = "confirm" ->
